@@ -36,7 +36,7 @@ func genC06(t *rapid.T) CaseC06 {
 	c := CaseC06{}
 	c.PMT = *genPMT(t, 0, 12)
 	c.Carrier = genCarrier(t, true)
-	c.PID = int(genBits(t, 13, "pmt-pid"))
+	c.PID = legalPID(int(genBits(t, 13, "pmt-pid")))
 	if c.PID == 0 || c.PID == 0x1FFF {
 		c.PID = 0x64
 	}
@@ -399,8 +399,8 @@ func TestC06ExhaustiveTableHeader(t *testing.T) {
 	for tid := 0; tid < 256; tid++ {
 		for flags := 0; flags < 4; flags++ {
 			for l := 0; l < 1024; l++ {
-				if tid <= 3 && l > 1021 {
-					continue // the ISO tables stop at 1021: a header decoder may refuse what no legal section announces
+				if tid <= 3 && (l > 1021 || flags&1 == 0) {
+					continue // the ISO tables stop at 1021 and use the long syntax: a header decoder may refuse what no legal section announces
 				}
 				c := CaseC06TH{tid, flags&1 != 0, flags&2 != 0, l}
 				if f := c06TH(c); f != nil {
@@ -412,7 +412,7 @@ func TestC06ExhaustiveTableHeader(t *testing.T) {
 		}
 	}
 	hx.Rec("C06").Bulk(n, n)
-	hx.Rec("C06").Subspace("TableHeader.Data / TableHeaderFromBytes identity and bit layout: all 256 table ids x 4 flag combinations x section_length 0..1023 (0..1021 for table ids 0..3)")
+	hx.Rec("C06").Subspace("TableHeader.Data / TableHeaderFromBytes identity and bit layout: all 256 table ids x 4 flag combinations x section_length 0..1023 (0..1021 and section_syntax_indicator 1 for table ids 0..3)")
 }
 
 func FuzzC06(f *testing.F) {
